@@ -5,8 +5,8 @@ EXTENDS Vlq, TLC, Json, IOUtils
 
 Rec == ndJsonDeserialize(IOEnv.TRACE)
 
-VARIABLES l, bad
-vars == <<l, bad>>
+VARIABLES l, bad, free
+vars == <<l, bad, free>>
 
 AllInDomain(vs) == \A i \in DOMAIN vs : InDomain(vs[i])
 
@@ -24,11 +24,16 @@ Judge(e) == CASE e.op = "dec" -> JudgeDec(e)
               [] e.op = "enc" -> JudgeEnc(e)
               [] OTHER -> FALSE
 
-Init == l = 1 /\ bad = <<>>
+Free(e) == CASE e.op = "dec" -> (Dec(e.args.ds).k = "ok" /\ ~AllInDomain(Dec(e.args.ds).vals))
+             [] e.op = "enc" -> ~AllInDomain(e.args.vals)
+             [] OTHER -> FALSE
+
+Init == l = 1 /\ bad = <<>> /\ free = <<>>
 Next == /\ l <= Len(Rec)
         /\ l' = l + 1
         /\ bad' = IF Judge(Rec[l]) THEN bad ELSE Append(bad, Rec[l].i)
+        /\ free' = IF Free(Rec[l]) THEN Append(free, Rec[l].i) ELSE free
 Spec == Init /\ [][Next]_vars
 
-Report == (l = Len(Rec) + 1) => PrintT("RESULT " \o ToJson([events |-> Len(Rec), bad |-> bad]))
+Report == (l = Len(Rec) + 1) => PrintT("RESULT " \o ToJson([events |-> Len(Rec), bad |-> bad, free |-> free]))
 =============================================================================
